@@ -7,7 +7,7 @@ from eosenv import bits
 # enum codes are read from the running eos so the generator follows the source
 from eos.const.eos import (EffectMode, ModAffecteeFilter as F, ModAggregateMode as AG,
                            ModDomain as D, ModOperator as OP, State)
-from eos.const.eve import AttrId, EffectCategoryId as EC, EffectId, TypeCategoryId as TC, TypeId
+from eos.const.eve import AttrId, EffectCategoryId as EC, EffectId, TypeCategoryId as TC, TypeId, FighterAbilityId, fighter_ability_map
 
 BUFF_EFFECTS = [EffectId.module_bonus_warfare_link_armor, EffectId.module_bonus_warfare_link_shield,
                 EffectId.module_bonus_warfare_link_info]
@@ -55,10 +55,10 @@ class Universe:
             self.attrs[a] = dict(default=r.choice([None, None, r.choice(DYADIC)]),
                                  hig=r.random() < 0.6, stackable=r.random() < 0.5, max=None)
         for a in self.gen_attrs[2:]:
-            if r.random() < 0.2:
+            if r.random() < 0.35:
                 self.attrs[a]['max'] = r.choice([x for x in self.base_attrs + self.gen_attrs if x < a])
         for a in lp:
-            self.attrs[a] = dict(default=None, hig=False, stackable=True, max=None)
+            self.attrs[a] = dict(default=r.choice([None, Fraction(0), Fraction(5)]), hig=False, stackable=True, max=None)
         for ida, va in BUFF_ATTRS:
             self.attrs[int(ida)] = dict(default=None, hig=True, stackable=True, max=None)
             self.attrs[int(va)] = dict(default=None, hig=True, stackable=True, max=None)
@@ -95,6 +95,18 @@ class Universe:
             self.effects[int(be)] = dict(cat=int(EC.active), chance=None, resist=None,
                                          mods=self.gen_mods(int(EC.active), r.randint(0, 1)))
         self.effects[int(EffectId.target_attack)] = dict(cat=int(EC.target), chance=None, resist=None, mods=[])
+        # fighter abilities: ability id -> effect id from the source's map
+        self.ability_ids = [int(FighterAbilityId.afterburner), int(FighterAbilityId.ecm), int(FighterAbilityId.artillery)]
+        for aid in self.ability_ids:
+            eid = int(fighter_ability_map[aid])
+            if eid not in self.effects:
+                self.effects[eid] = dict(cat=int(r.choice([EC.active, EC.active, EC.target, EC.passive])),
+                                         chance=None, resist=None, mods=self.gen_mods(int(EC.active), r.randint(0, 2)))
+        # booster side effects: offline-category effects with a chance attribute
+        self.side_effect_ids = [2100, 2101]
+        for eid in self.side_effect_ids:
+            self.effects[eid] = dict(cat=int(EC.passive), chance=r.choice(self.base_attrs), resist=None,
+                                     mods=self.gen_mods(int(EC.passive), r.randint(0, 2)))
         # types
         self.types[int(TypeId.character_static)] = self.gen_type(None, None, allow_effects=('passive',))
         for t in self.skill_types:
@@ -116,6 +128,45 @@ class Universe:
             for t in ts:
                 cat = {'subsystem': int(TC.subsystem), 'fighter': int(TC.fighter)}.get(cls, r.choice([None, 99]))
                 self.types[t] = self.gen_type(r.choice(self.groups), cat, allow_effects=('passive', 'active'))
+        # an exact tie between a penalised (module) and a penalty-immune (implant) modification under
+        # one max/min aggregate key, plus another penalised bonus on the same non-stackable attribute
+        if r.random() < 0.35:
+            tgt = r.choice(self.gen_attrs[2:])
+            self.attrs[tgt]['stackable'] = False
+            srca = self.base_attrs[0]
+            agg = int(r.choice([AG.maximum, AG.minimum]))
+            val = r.choice(PERCENTS)
+            mt, it2, mt2 = self.module_types[0], self.implant_types[0], self.module_types[-1]
+            for k, t in enumerate((mt, it2)):
+                eid = 2200 + k
+                self.effects[eid] = dict(cat=int(EC.passive), chance=None, resist=None,
+                                         mods=[dict(filter=int(F.item), extra=None, domain=int(D.ship), tgt=tgt,
+                                                    op=int(OP.post_percent), agg=agg, key=7, src=srca)])
+                self.types[t]['effects'].append(eid)
+                self.types[t]['attrs'][srca] = val
+            self.effects[2202] = dict(cat=int(EC.passive), chance=None, resist=None,
+                                      mods=[dict(filter=int(F.item), extra=None, domain=int(D.ship), tgt=tgt,
+                                                 op=int(OP.post_percent), agg=int(AG.stack), key=None, src=self.base_attrs[1])])
+            self.types[mt2]['effects'].append(2202)
+            self.types[mt2]['attrs'][self.base_attrs[1]] = r.choice(PERCENTS)
+            for st in self.ship_types:
+                self.types[st]['attrs'].setdefault(tgt, r.choice(DYADIC))
+        bt = self.types[self.misc_types['booster'][0]]
+        for eid in self.side_effect_ids:
+            if r.random() < 0.8 and eid not in bt['effects']:
+                bt['effects'].append(eid)
+        for a in self.base_attrs:
+            bt['attrs'].setdefault(a, r.choice([Fraction(1, 4), Fraction(1, 2), Fraction(3, 4)]))
+        ft = self.types[self.misc_types['fighter'][0]]
+        for aid in self.ability_ids:
+            if r.random() < 0.8:
+                ft['abilities'].append(aid)
+                eid = int(fighter_ability_map[aid])
+                if r.random() < 0.85 and eid not in ft['effects']:
+                    ft['effects'].append(eid)
+        fa = [int(fighter_ability_map[a]) for a in ft['abilities'] if int(fighter_ability_map[a]) in ft['effects']]
+        if fa and r.random() < 0.6:
+            ft['default'] = r.choice(fa)
 
     def gen_buff(self, bid):
         r = self.rng
@@ -236,7 +287,8 @@ class Universe:
         for s in self.skill_types:
             if r.random() < 0.3:
                 skills[s] = r.randint(1, 5)
-        return dict(group=group, category=category, default=default, attrs=attrs, effects=effects, skills=skills)
+        return dict(group=group, category=category, default=default, attrs=attrs, effects=effects, skills=skills,
+                    abilities=[])
 
     def variant(self, rng):
         """a second universe sharing ids with this one, with dropped and changed entries"""
@@ -293,6 +345,8 @@ class Universe:
                 out.append('u_teffect %d %d %d' % (src, t, e))
             for s, l in ty['skills'].items():
                 out.append('u_tskill %d %d %d %d' % (src, t, s, l))
+            for aid in ty.get('abilities', []):
+                out.append('u_tability %d %d %d' % (src, t, aid))
         for b, tpls in self.buffs.items():
             for tp in tpls:
                 out.append('u_buff %d %d %d %s %d %d %d' % (src, b, tp['filter'], o(tp['extra']), tp['tgt'],
@@ -554,6 +608,29 @@ class World:
         a = r.choice(self.u.all_attr_ids())
         self.emit('%s %d %d' % (r.choice(['read', 'get', 'get']), i, a))
 
+    def op_switch(self):
+        r = self.rng
+        u = self.u
+        boosters = [i for i, c in self.items.items() if c == 'booster']
+        fighters = [i for i, c in self.items.items() if c == 'fighter']
+        k = r.random()
+        if boosters and k < 0.45:
+            i = r.choice(boosters)
+            kk = r.random()
+            if kk < 0.5:
+                self.emit('setside %d %d %d' % (i, r.choice(u.side_effect_ids + [2000]), r.randint(0, 1)))
+            elif kk < 0.75:
+                self.emit('randomize %d %s' % (i, ' '.join(q(Fraction(r.randint(0, 8), 8)) for _ in range(16))))
+            else:
+                self.emit('sideeffects %d' % i)
+        elif fighters:
+            i = r.choice(fighters)
+            if r.random() < 0.7:
+                self.emit('setability %d %d %d' % (i, r.choice(u.ability_ids + [int(FighterAbilityId.kamikaze)]),
+                                                   r.randint(0, 1)))
+            else:
+                self.emit('abilities %d' % i)
+
     def op_bad(self):
         """deliberately failing calls"""
         r = self.rng
@@ -604,17 +681,17 @@ class World:
             self.emit('rinsert %d %s %d -' % (f, r.choice(['high', 'mid', 'low']), r.randint(-2, 4)))
 
     PROFILES = {
-        'default': dict(place=22, remove=10, clear=2, state=12, charge=7, target=9, mode=6, level=4, fleet=6,
+        'default': dict(switch=5, place=22, remove=10, clear=2, state=12, charge=7, target=9, mode=6, level=4, fleet=6,
                         solsys=4, source=4, read=10, bad=10),
-        'bad': dict(place=14, remove=8, clear=2, state=4, charge=6, target=3, mode=2, level=1, fleet=4,
+        'bad': dict(switch=2, place=14, remove=8, clear=2, state=4, charge=6, target=3, mode=2, level=1, fleet=4,
                     solsys=3, source=2, read=6, bad=45),
-        'containers': dict(place=34, remove=22, clear=5, state=2, charge=10, target=1, mode=1, level=0, fleet=1,
+        'containers': dict(switch=2, place=34, remove=22, clear=5, state=2, charge=10, target=1, mode=1, level=0, fleet=1,
                            solsys=2, source=1, read=3, bad=18),
-        'state': dict(place=12, remove=5, clear=1, state=30, charge=8, target=4, mode=25, level=2, fleet=1,
+        'state': dict(switch=14, place=12, remove=5, clear=1, state=30, charge=8, target=4, mode=25, level=2, fleet=1,
                       solsys=3, source=3, read=4, bad=2),
-        'source': dict(place=14, remove=6, clear=1, state=8, charge=6, target=6, mode=5, level=3, fleet=3,
+        'source': dict(switch=2, place=14, remove=6, clear=1, state=8, charge=6, target=6, mode=5, level=3, fleet=3,
                        solsys=10, source=22, read=12, bad=4),
-        'projection': dict(place=16, remove=10, clear=1, state=12, charge=2, target=22, mode=4, level=3, fleet=14,
+        'projection': dict(switch=2, place=16, remove=10, clear=1, state=12, charge=2, target=22, mode=4, level=3, fleet=14,
                            solsys=4, source=3, read=8, bad=1),
     }
 
@@ -625,7 +702,7 @@ class World:
                  (self.op_state, w['state']), (self.op_charge, w['charge']), (self.op_target, w['target']),
                  (self.op_mode, w['mode']), (self.op_level, w['level']), (self.op_fleet, w['fleet']),
                  (self.op_solsys, w['solsys']), (lambda: self.op_source(nsrc), w['source']),
-                 (self.op_read, w['read']), (self.op_bad, w['bad'])]
+                 (self.op_read, w['read']), (self.op_bad, w['bad']), (self.op_switch, w['switch'])]
         tot = sum(x for _, x in table)
         x = r.uniform(0, tot)
         for fn, wt in table:
@@ -669,5 +746,6 @@ def gen_history(rng, nops=None, malformed=False, nfits=None, two_sources=True, p
     nops = nops or rng.randint(10, 45)
     for _ in range(nops):
         w.step(nsrc, profile)
-    meta = dict(items=sorted(w.items), fits=w.fits, sss=w.sss, attrs=u1.all_attr_ids(), setup_len=setup_len)
+    meta = dict(items=sorted(w.items), fits=w.fits, sss=w.sss, attrs=u1.all_attr_ids(), setup_len=setup_len,
+                classes=dict(w.items))
     return ulines, w.lines, meta
